@@ -52,6 +52,18 @@ def dump(effs, ind=0, out=None):
     return out
 
 
+def handlers_only_reraise(s):
+    """every except-handler of the try statement ends by raising and has no other way out"""
+    if not s.handlers:
+        return not any(isinstance(x, (ast.Return, ast.Break, ast.Continue)) for b in s.finalbody for x in ast.walk(b))
+    for h in s.handlers:
+        if not h.body or not isinstance(h.body[-1], ast.Raise):
+            return False
+        if any(isinstance(x, (ast.Return, ast.Break, ast.Continue, ast.Yield)) for b in h.body for x in ast.walk(b)):
+            return False
+    return not any(isinstance(x, (ast.Return, ast.Break, ast.Continue)) for b in s.finalbody for x in ast.walk(b))
+
+
 def iter_effects(effs, ctx=()):
     """Yield (effect, context) for every effect; context = tuple of enclosing for/if/while/call/iter effects
     (for an 'if' the entry is (eff, True|False) for then/else)."""
@@ -1336,6 +1348,19 @@ class Interp:
                     self.bind(it.optional_vars, v, fr.env, fr)
                 self.emit(Eff('expr', fr.func, s, term=v))
             self.block(s.body, fr)
+            return
+        if isinstance(s, ast.Try) and handlers_only_reraise(s):
+            # try: BODY except E as e: raise Explained(...) from e  [finally: CLEANUP]: on every path that does not raise this is
+            # BODY (; else-block) ; CLEANUP - the handlers only turn one exception into another
+            self.block(s.body, fr)
+            if fr.ctrl is None:
+                self.block(s.orelse, fr)
+            if s.finalbody:
+                saved = fr.ctrl
+                fr.ctrl = None
+                self.block(s.finalbody, fr)
+                if fr.ctrl is None:
+                    fr.ctrl = saved
             return
         if isinstance(s, (ast.Import, ast.ImportFrom, ast.Global, ast.Nonlocal)):
             return
